@@ -19,7 +19,7 @@ EXTENDS Impl
 
 Probe == <<"a", "b", "c", "d", "pp", "zz">>
 
-IsLookupErr(c) == c \in {"IndexError", "KeyError", "KeyErrorCloseMatches", "UserKeyError"}
+IsLookupErr(c) == c \in {"IndexError", "KeyError", "KeyErrorCloseMatches", "UserKeyError", "UserIndexError"}
 
 GiRange(len) == IF len.ok THEN Range(0 - (len.n + 2), len.n + 1) ELSE Range(0 - 2, 2)
 
